@@ -8,21 +8,31 @@ import "strings"
 // (no Cursor method is involved): key(k) for a node, "." for a nil child, comma separated.
 func VerifCursorShape[T any](t *Tree[T], key func(T) string) string {
 	var out []string
-	var rec func(n *node[T], depth int)
-	rec = func(n *node[T], depth int) {
+	// a tree whose nodes form a cycle (or share subtrees) would be printed without end: stop after a
+	// number of nodes no tree of this size can have
+	budget := 8*t.size + 1024
+	if budget < 1024 {
+		budget = 1024
+	}
+	var rec func(n *node[T])
+	rec = func(n *node[T]) {
+		if budget <= 0 {
+			if budget == 0 {
+				out = append(out, "CYCLE")
+				budget--
+			}
+			return
+		}
+		budget--
 		if n == nil {
 			out = append(out, ".")
 			return
 		}
-		if depth > 1<<20 {
-			out = append(out, "CYCLE")
-			return
-		}
 		out = append(out, key(n.X))
-		rec(n.left, depth+1)
-		rec(n.right, depth+1)
+		rec(n.left)
+		rec(n.right)
 	}
-	rec(t.root, 0)
+	rec(t.root)
 	return strings.Join(out, ",")
 }
 
